@@ -48,7 +48,7 @@ THEOREMS = {
     "C10": [("QuartzModel.Theorems.C10", "Lifecycle." + t) for t in [
         "C10_facts", "C10_start_idempotent", "C10_stop_idempotent", "C10_isStarted_latest", "C10_started_at_quiescence",
         "C10_cancel_eq_stop", "C10_restart", "C10_restart_unguarded_fails", "C10_cancel_start_race_unrepaired",
-        "C10_wait_sound", "C10_ctx_cancelled_on_stop", "C10_isStarted_latest_code", "C10_restart_code"]] +
+        "C10_wait_sound", "C10_wait_returns_at_zero", "C10_wait_independent", "C10_wait_reusable", "C10_waitgroup_reuse_hazard", "C10_ctx_cancelled_on_stop", "C10_isStarted_latest_code", "C10_restart_code"]] +
            [("QuartzModel.Proofs.LifecycleLemmas", "Lifecycle.quiet_iff")],
     "C14": [("QuartzModel.Theorems.C14", "Cron." + t) for t in [
         "C14_sound", "C14_no_miss", "C14_expiry", "C14_terminates", "C14_exact_away_from_transitions", "C14_exact_is_least",
